@@ -3,8 +3,11 @@ package simkit
 import (
 	"fmt"
 	"os"
+	"runtime"
+	"runtime/debug"
 	"sort"
 	"strconv"
+	"strings"
 	"testing"
 	"time"
 )
@@ -111,7 +114,7 @@ func WorkerMain(t *testing.T, eng Engine) {
 			p := job.Replay.Clone()
 			out.InProgress = p.Seed
 			flush()
-			res := eng.Execute(t, p)
+			res := execute(eng, t, p)
 			keep := 60
 			if v, err := strconv.Atoi(os.Getenv("VERIF_JOURNAL_TAIL")); err == nil && v > 0 {
 				keep = v
@@ -129,13 +132,24 @@ func WorkerMain(t *testing.T, eng Engine) {
 		scen := eng.Scenarios(job.Property)
 		for i := 0; i < job.MaxRuns; i++ {
 			seed := SeedFor(job.SeedBase, i)
+			if job.ExactSeed != 0 {
+				if i > 0 {
+					break
+				}
+				seed = job.ExactSeed
+			}
 			sc := scen[i%len(scen)]
 			if job.Scenario != "" {
 				sc = job.Scenario
 			}
 			for k := 0; k < max(job.Repeat, 1); k++ {
 				p := eng.Generate(job.Property, sc, seed, job.Tier)
-				res := eng.Execute(t, p)
+				res := execute(eng, t, p)
+				if dir := os.Getenv("VERIF_DUMP_DIR"); dir != "" {
+					// (debugging aid: the whole journal of each execution)
+					os.WriteFile(fmt.Sprintf("%s/%d-w%d-%d.journal", dir, seed, job.Worker, k), []byte(strings.Join(res.JournalTail, "\n")+"\n"), 0o644)
+					WriteJSON(fmt.Sprintf("%s/%d.plan", dir, seed), p)
+				}
 				key := fmt.Sprintf("%s/%d", sc, seed)
 				vs := ""
 				for _, v := range res.Violations {
@@ -198,7 +212,7 @@ func WorkerMain(t *testing.T, eng Engine) {
 			lastFlush = time.Now()
 		}
 		WriteJSON(job.Out+".inprogress", plan)
-		res := eng.Execute(t, plan)
+		res := execute(eng, t, plan)
 		spent[sc] += time.Since(runStart)
 		out.Runs++
 		out.PerScenario[sc]++
@@ -288,4 +302,22 @@ func tail(xs []string, n int) []string {
 		return xs
 	}
 	return xs[len(xs)-n:]
+}
+
+var sinceCollection int
+
+// execute runs one plan with the garbage collector switched off: a collection
+// cycle in the middle of a run reorders the goroutines of the bubble (assists,
+// background workers) in a way no seed controls. Garbage is collected between
+// runs instead (a run allocates little).
+func execute(eng Engine, t *testing.T, p *Plan) *Result {
+	old := debug.SetGCPercent(-1)
+	res := eng.Execute(t, p)
+	debug.SetGCPercent(old)
+	sinceCollection++
+	if sinceCollection >= 8 {
+		sinceCollection = 0
+		runtime.GC()
+	}
+	return res
 }
